@@ -1,9 +1,15 @@
 /-
   Name table and type-reference resolution (C03), mirroring `Ast::lookup_table`,
   `find_node_with_scope` and `TypeRefPatcher::resolve_definition / resolve_type_alias`.
-  Keys are scopedId identifier *strings*, exactly as in the Rust code; the last writer wins.
+  Keys are scoped identifier *strings*, exactly as in the Rust code; the last writer wins.
+
+  String handling is done on `String.toList` with three small structural functions
+  (`splitSegs` = `str::split("::")`, `joinSegs` = `[..].join("::")`, `stripGlobal` =
+  `strip_prefix("::")`) so that the theorems of Props/C03 are about the very strings the driver
+  compares with the compiler, without trusting lemmas about `String.splitOn`.
 -/
 import SlicecVerif.Model.Syntax
+import SlicecVerif.Gen.ResolveKinds
 
 namespace Slicec
 
@@ -16,16 +22,22 @@ def NodeKind.str : NodeKind → String
   | .operation => "operation" | .parameter => "parameter" | .enum => "enum" | .enumerator => "enumerator"
   | .custom => "custom" | .alias => "alias" | .primitive => "primitive"
 
+/-- the `Node` variant holding an element of this kind (ast/node.rs) -/
+def NodeKind.variant : NodeKind → String
+  | .module => "Module" | .struct => "Struct" | .field => "Field" | .interface => "Interface"
+  | .operation => "Operation" | .parameter => "Parameter" | .enum => "Enum" | .enumerator => "Enumerator"
+  | .custom => "CustomType" | .alias => "TypeAlias" | .primitive => "Primitive"
+
 /-- what the table stores for a key -/
 structure NodeInfo where
   kind : NodeKind
-  /-- parser-scopedId identifier (= the key) -/
+  /-- parser-scoped identifier (= the key) -/
   key : String
   /-- module path of the defining file (scope in which the node's own type references are resolved) -/
   modScope : String
   /-- identifier without scope -/
   ident : String
-  /-- for aliases: the underlying type reference -/
+  /-- for aliases (`Node::TypeAlias`): the underlying type reference; `none` for every other node -/
   aliasOf : Option TRef := none
   /-- for primitives -/
   prim : Option Prim := none
@@ -33,14 +45,42 @@ structure NodeInfo where
   file : Nat := 0
   deriving Inhabited
 
+/-- `if let Node::TypeAlias(..) = node` -/
+def NodeInfo.isAlias (n : NodeInfo) : Bool := n.aliasOf.isSome
+
 abbrev Table := List (String × NodeInfo)
 
-/-- `HashMap::insert`: a later entry with the same key replaces the earlier one -/
-def Table.find (t : Table) (k : String) : Option NodeInfo :=
-  match t.reverse.find? (fun e => e.1 == k) with
-  | some e => some e.2
-  | none => none
+/-- `HashMap::insert` / `HashMap::get`: a later entry with the same key replaces the earlier one -/
+def Table.find : Table → String → Option NodeInfo
+  | [], _ => none
+  | e :: rest, k =>
+    match Table.find rest k with
+    | some n => some n
+    | none => if e.1 == k then some e.2 else none
 
+/-! ### scoped identifier strings -/
+
+/-- `str::split("::")` on the characters: left to right, non-overlapping -/
+def splitAux : List Char → List Char → List (List Char)
+  | acc, [] => [acc]
+  | acc, ':' :: ':' :: rest => acc :: splitAux [] rest
+  | acc, c :: rest => splitAux (acc ++ [c]) rest
+
+def splitSegs (s : String) : List String := (splitAux [] s.toList).map String.ofList
+
+/-- `[..].join("::")` -/
+def joinSegs : List String → String
+  | [] => ""
+  | [a] => a
+  | a :: b :: rest => a ++ "::" ++ joinSegs (b :: rest)
+
+/-- `identifier.strip_prefix("::")` -/
+def stripGlobal (id : String) : Option String :=
+  match id.toList with
+  | ':' :: ':' :: rest => some (String.ofList rest)
+  | _ => none
+
+/-- `get_scoped_identifier` (grammar/util.rs) -/
 def scopedId (ident scope : String) : String := if scope.isEmpty then ident else scope ++ "::" ++ ident
 
 def primTable : Table := Prim.all.map fun p => (p.kw, { kind := .primitive, key := p.kw, modScope := "", ident := p.kw, prim := some p })
@@ -56,6 +96,16 @@ def retParams : Ret → List Param
   | .single tag stream ty => [{ attrs := [], tag := tag, name := "returnValue", stream := stream, ty := ty }]
   | .tuple ps => ps
 
+def opEntries (fileIdx : Nat) (modScope key : String) (o : Op) : Table :=
+  let okey := scopedId o.name key
+  paramEntries fileIdx modScope okey o.params ++ paramEntries fileIdx modScope okey (retParams o.ret) ++
+  [(okey, { kind := .operation, key := okey, modScope := modScope, ident := o.name, attrs := o.attrs, file := fileIdx })]
+
+def enumeratorEntries (fileIdx : Nat) (modScope key : String) (e : Enumerator) : Table :=
+  let ekey := scopedId e.name key
+  fieldEntries fileIdx modScope ekey (e.fields.getD []) ++
+  [(ekey, { kind := .enumerator, key := ekey, modScope := modScope, ident := e.name, attrs := e.attrs, file := fileIdx })]
+
 /-- entries of one definition in the order the parser adds them: members before their container -/
 def defEntries (fileIdx : Nat) (modScope : String) : Def → Table
   | .struct _ attrs _ name fields =>
@@ -64,17 +114,11 @@ def defEntries (fileIdx : Nat) (modScope : String) : Def → Table
     [(key, { kind := .struct, key := key, modScope := modScope, ident := name, attrs := attrs, file := fileIdx })]
   | .iface _ attrs name _ ops =>
     let key := scopedId name modScope
-    (ops.flatMap fun o =>
-      let okey := scopedId o.name key
-      paramEntries fileIdx modScope okey o.params ++ paramEntries fileIdx modScope okey (retParams o.ret) ++
-      [(okey, { kind := .operation, key := okey, modScope := modScope, ident := o.name, attrs := o.attrs, file := fileIdx })]) ++
+    (ops.flatMap (opEntries fileIdx modScope key)) ++
     [(key, { kind := .interface, key := key, modScope := modScope, ident := name, attrs := attrs, file := fileIdx })]
   | .enum _ attrs _ _ name _ es =>
     let key := scopedId name modScope
-    (es.flatMap fun e =>
-      let ekey := scopedId e.name key
-      fieldEntries fileIdx modScope ekey (e.fields.getD []) ++
-      [(ekey, { kind := .enumerator, key := ekey, modScope := modScope, ident := e.name, attrs := e.attrs, file := fileIdx })]) ++
+    (es.flatMap (enumeratorEntries fileIdx modScope key)) ++
     [(key, { kind := .enum, key := key, modScope := modScope, ident := name, attrs := attrs, file := fileIdx })]
   | .custom _ attrs name =>
     let key := scopedId name modScope
@@ -83,9 +127,11 @@ def defEntries (fileIdx : Nat) (modScope : String) : Def → Table
     let key := scopedId name modScope
     [(key, { kind := .alias, key := key, modScope := modScope, ident := name, aliasOf := some ty, attrs := attrs, file := fileIdx })]
 
+def SFile.modPath (f : SFile) : String := match f.module with | some m => m.path | none => ""
+
+/-- `parse_file`: the definitions (in reduction order), then the module itself -/
 def fileEntries (fileIdx : Nat) (f : SFile) : Table :=
-  let modScope := match f.module with | some m => m.path | none => ""
-  (f.defs.flatMap (defEntries fileIdx modScope)) ++
+  (f.defs.flatMap (defEntries fileIdx f.modPath)) ++
   (match f.module with
    | some m => [(m.path, { kind := .module, key := m.path, modScope := m.path, ident := m.path, attrs := m.attrs, file := fileIdx })]
    | none => [])
@@ -101,11 +147,23 @@ def firstSome {α β} (f : α → Option β) : List α → Option β
   | [] => none
   | x :: xs => match f x with | some y => some y | none => firstSome f xs
 
-/-- `Ast::find_node_with_scope` -/
+/-- the `while !scopes.is_empty() { candidate = scopes.join("::") + "::" + id; …; scopes.pop(); }` loop -/
+def scopeLoop (t : Table) (id : String) : List String → Option NodeInfo
+  | [] => none
+  | a :: m =>
+    match t.find (joinSegs (a :: m) ++ "::" ++ id) with
+    | some n => some n
+    | none => scopeLoop t id (a :: m).dropLast
+termination_by l => l.length
+decreasing_by simp
+
+/-- `Ast::find_node_with_scope`: `::id` is looked up as is; otherwise `scope.split("::")`, then for the whole
+    vector and each shorter prefix the candidate `prefix.join("::") + "::" + id`, finally `id` alone -/
 def findNodeWithScope (t : Table) (id scope : String) : Option NodeInfo :=
-  if id.startsWith "::" then t.find (id.drop 2).toString
-  else
-    match firstSome (fun p => t.find ("::".intercalate p ++ "::" ++ id)) (prefixesDesc (scope.splitOn "::")) with
+  match stripGlobal id with
+  | some rest => t.find rest
+  | none =>
+    match scopeLoop t id (splitSegs scope) with
     | some n => some n
     | none => t.find id
 
@@ -113,66 +171,115 @@ inductive ResErr where
   | doesNotExist (id : String)
   | typeMismatch (expected actual : String)
   | aliasCycle (reported : Bool) (id : String)   -- E019 is reported only when the walk is back at its first alias
+  | fuel                                         -- the model's recursion bound; never produced (Props/C03 `walkAlias_fuel`)
   deriving Repr, DecidableEq, Inhabited
 
-/-- the non-alias node an alias chain ends in, with the attributes accumulated along the chain
-    (`resolve_type_alias`); `anonOf` = the chain ended in a type expression written in an alias
-    (primitive or anonymous type), given with the module scope it was written in -/
+/-- the non-alias node an alias chain ends in (`resolve_type_alias`); `expr` = the chain ended in a type
+    expression written in an alias (primitive keyword or anonymous type, patched by the parser), given with
+    the module scope it was written in -/
 inductive Target where
   | node (n : NodeInfo)
   | expr (ty : TyExpr) (modScope : String)
   deriving Inhabited
 
+/-- `resolve_type_alias` started at the alias `cur`: `chain` = identifiers of the aliases seen so far,
+    `attrs` = attributes accumulated so far -/
 def walkAlias (t : Table) : Nat → List String → List Attr → NodeInfo → Except ResErr (Target × List Attr)
-  | 0, chain, _, cur => .error (.aliasCycle false (chain.headD cur.key))   -- unreachable: fuel = #aliases + 1 (proved in Props/C05)
+  | 0, _, _, _ => .error .fuel
   | fuel + 1, chain, attrs, cur =>
     if chain.contains cur.key then
       .error (.aliasCycle (chain.head? == some cur.key) cur.key)
     else
       match cur.aliasOf with
-      | none => .ok (.node cur, attrs)
+      | none => .ok (.node cur, attrs)     -- `cur` is not an alias: not reached from `resolveNamed`
       | some u =>
         let attrs := attrs ++ u.attrs
         match u.ty with
         | .named id =>
           match findNodeWithScope t id cur.modScope with
           | none => .error (.doesNotExist id)
-          | some n => if n.kind == .alias then walkAlias t fuel (chain ++ [cur.key]) attrs n else .ok (.node n, attrs)
+          | some n => if n.isAlias then walkAlias t fuel (chain ++ [cur.key]) attrs n else .ok (.node n, attrs)
         | e => .ok (.expr e cur.modScope, attrs)
 
-def numAliases (t : Table) : Nat := (t.filter fun e => e.2.kind == .alias).length
+/-- identifiers of the aliases stored in the table -/
+def aliasKeys (t : Table) : List String := (t.filter fun e => e.2.isAlias).map fun e => e.2.key
 
-/-- positions a reference can stand in decide which node kinds are acceptable (`TryInto<WeakPtr<T>>`) -/
+def numAliases (t : Table) : Nat := (aliasKeys t).length
+
+/-- positions a reference can stand in decide which node kinds are acceptable (`TryInto<WeakPtr<T>>`):
+    `dyn Type` for fields, parameters, alias targets, element types; `Interface` for bases; `Primitive` for
+    underlying types of enums -/
 inductive Want where
   | type | interface | primitive
   deriving Repr, DecidableEq
 
 def acceptable (w : Want) (k : NodeKind) : Bool :=
   match w with
-  | .type => k == .struct || k == .enum || k == .custom || k == .alias || k == .primitive
+  | .type => Gen.typeNodeVariants.contains k.variant      -- `TryFrom<&Node> for WeakPtr<dyn Type>`, extracted from the source
   | .interface => k == .interface
   | .primitive => k == .primitive
 
 def wantName : Want → String
   | .type => "type" | .interface => "interface" | .primitive => "primitive"
 
+/-- the `Node` variant of a type expression the parser patched itself -/
+def TyExpr.variant : TyExpr → String
+  | .prim _ => "Primitive" | .seq _ => "Sequence" | .dict _ _ => "Dictionary" | .result _ _ => "ResultType" | .named _ => "TypeRef"
+
+/-- a type expression written in an alias (primitive keyword or anonymous type), reached through the alias
+    from a position that wants `w` -/
+def acceptableExpr (w : Want) (e : TyExpr) : Bool :=
+  match w, e with
+  | .type, e => Gen.typeNodeVariants.contains e.variant
+  | .primitive, .prim _ => true
+  | _, _ => false
+
 /-- `resolve_definition` for a named reference written in module scope `scope` -/
 def resolveNamed (t : Table) (w : Want) (id scope : String) : Except ResErr (Target × List Attr) :=
   match findNodeWithScope t id scope with
   | none => .error (.doesNotExist id)
   | some n =>
-    if n.kind == .alias then
+    if n.isAlias then
       match walkAlias t (numAliases t + 1) [] [] n with
       | .error e => .error e
       | .ok (.node m, attrs) => if acceptable w m.kind then .ok (.node m, attrs) else .error (.typeMismatch (wantName w) m.kind.str)
       | .ok (.expr e s, attrs) =>
         -- the chain ended in a written type expression: a primitive or an anonymous type
-        match w, e with
-        | .interface, _ => .error (.typeMismatch "interface" "type")
-        | .primitive, .prim _ => .ok (.expr e s, attrs)
-        | .primitive, _ => .error (.typeMismatch "primitive" "type")
-        | .type, _ => .ok (.expr e s, attrs)
+        if acceptableExpr w e then .ok (.expr e s, attrs) else .error (.typeMismatch (wantName w) "type")
     else if acceptable w n.kind then .ok (.node n, [])
     else .error (.typeMismatch (wantName w) n.kind.str)
+
+/-! ### the specification on segment lists -/
+
+/-- a table keyed by segment lists -/
+abbrev SegTable := List (List String × NodeInfo)
+
+def SegTable.find : SegTable → List String → Option NodeInfo
+  | [], _ => none
+  | e :: rest, k =>
+    match SegTable.find rest k with
+    | some n => some n
+    | none => if e.1 = k then some e.2 else none
+
+/-- the string table the compiler holds for a segment-keyed table -/
+def SegTable.toTable (st : SegTable) : Table := st.map fun e => (joinSegs e.1, e.2)
+
+/-- the enclosing scopes of a module path, innermost first, ending with the global scope `[]` -/
+def scopesOutward : List String → List (List String)
+  | [] => [[]]
+  | a :: m => (a :: m) :: scopesOutward (a :: m).dropLast
+termination_by l => l.length
+decreasing_by simp
+
+/-- `[m₁…mₙ·id, m₁…mₙ₋₁·id, …, m₁·id, id]`; a `::`-global name is looked up as `[id]` only -/
+def specCandidates (modulePath id : List String) (global : Bool) : List (List String) :=
+  if global then [id] else (scopesOutward modulePath).map (· ++ id)
+
+/-- the scoping rule: the first candidate that names something -/
+def specLookup (st : SegTable) (modulePath id : List String) (global : Bool) : Option NodeInfo :=
+  firstSome st.find (specCandidates modulePath id global)
+
+/-- how a reference is spelled in the source -/
+def spell (id : List String) (global : Bool) : String := if global then "::" ++ joinSegs id else joinSegs id
 
 end Slicec
